@@ -11,11 +11,20 @@
 //! * `mutants`       - detection self-test: hi/lo swapped in one Cmux of an in-memory copy of a table; the symbolic
 //!   check must report every non-equivalent mutant and its counterexample must be real.
 //! * `bind-*`        - the real evaluator at the parameters of the library's own test-suite (see c13_bind.rs).
+//!
+//! Counters: `run.states` = ROBDD nodes created, `run.transitions` = non-terminal, non-memoised `ite` steps,
+//! `run.traces_validated` = executions of the real evaluator compared with interpreter and u32 operator.
+//!
+//! Demonstration of detection without touching /repo: `VERIF_C13_MUTATE=add:7:19 pvc-bdd C13` swaps hi/lo of node 19
+//! of output bit 7 of the adder in the harness's copy of the table; `symbolic` reports `wrong_function` with a
+//! confirmed counterexample, `explicit` and the raw bind path (which runs the mutated copy through the real
+//! evaluator) report it as well; exit code 1. Env: `VERIF_C13_SUPPORT` (support limit of `explicit`),
+//! `VERIF_C13_N` (ring degree of the bind families), `VERIF_C13_ALL_BACKENDS=1` (all four backends in the quick tier).
 
 use crate::c13_bind;
 use poulpy_bin_fhe::bdd_arithmetic::Node;
 use poulpy_bin_fhe::verif_hooks::u32_circuits;
-use pvc_engine::{Rec, Run, Tier, fnv};
+use pvc_engine::{Rec, Run, fnv};
 use pvc_model::bdd::{
     ALL_WORD_OPS, Bdd, CNode, FALSE, Robdd, WordOp, check_structure, interpret_u64, spec_bits, symbolic, word_op,
 };
@@ -369,7 +378,7 @@ pub fn run(run: &mut Run) {
     }
 
     // ---- explicit ----
-    let limit = std::env::var("VERIF_C13_SUPPORT").ok().and_then(|s| s.parse().ok()).unwrap_or(run.tier.pick(20, 24));
+    let limit = std::env::var("VERIF_C13_SUPPORT").ok().and_then(|s| s.parse().ok()).unwrap_or(run.tier.pick(20, 26));
     if run.wants("explicit") {
         let (cases, skipped) = explicit_cases(&tables, limit);
         run.note(
@@ -435,6 +444,3 @@ pub fn replay(run: &mut Run, d: &Value) {
         panic!("C13 replay: unknown family {fam}");
     }
 }
-
-#[allow(dead_code)]
-fn _tier(_: Tier) {}
